@@ -96,7 +96,7 @@ def classes(case):
 
 @st.composite
 def _cases(draw, deep=False):
-    spec = draw(models.model_specs())
+    spec = draw(models.model_specs(open_patterns=True))
     j = draw(trees.wf_trees(spec, max_nodes=14 if deep else 8, deep=deep, aligned=draw(st.booleans())))
     return {'tree': j, 'model': spec, 'strip': draw(st.integers(0, 4)) == 0}
 
